@@ -133,6 +133,9 @@ mut("c20-status-lt-400-ok", "C20", "cli/src/config.rs",
 mut("c20-tempdir-copy", "C20", "cli/src/config.rs",
     None, None,
     "temp file in the default temp dir, copy into place when rename crosses file systems")
+mut("c20-fixed-temp-name", "C20", "cli/src/config.rs",
+    None, None,
+    "download into a fixed name (currency.json.part, create+truncate) and rename it: correct for one process at a time even when killed anywhere; two processes refreshing at once write into the same file and a mixed or short file is renamed into place (needs the second process)")
 mut("c20-ignore-callback-error", "C20", "cli/src/config.rs",
     "            .map_err(|_| curl::easy::WriteError::Pause)\n",
     "            .or(Ok(data.len()))\n",
@@ -303,6 +306,34 @@ def _(src):
     a = s.index("    temp_file.as_file_mut().sync_all()?;")
     b = s.index("fn cached(")
     s = s[:a] + "    file.sync_all()?;\n    file.seek(SeekFrom::Start(0))?;\n\n    Ok(file)\n}\n\n" + s[b:]
+    return {"cli/src/config.rs": s}
+
+@special("c20-fixed-temp-name")
+def _(src):
+    s = src("cli/src/config.rs")
+    a = s.index("    // Given a filename like `foo.json`, names the temp file something")
+    b = s.index("    let mut easy = Easy::new();")
+    s = s[:a] + """    // Download next to the final file, so that the rename below stays on
+    // one filesystem.
+    let temp_path = path.with_extension("json.part");
+    let mut temp_file = std::fs::OpenOptions::new()
+        .read(true)
+        .write(true)
+        .create(true)
+        .truncate(true)
+        .open(&temp_path)?;
+
+""" + s[b:]
+    s = s.replace("let mut write_handle = temp_file.as_file_mut().try_clone()?;", "let mut write_handle = temp_file.try_clone()?;")
+    s = s.replace("temp_file.as_file_mut().", "temp_file.")
+    s = s.replace("use std::ffi::OsString;\n", "")
+    a = s.index("    temp_file\n        .persist(path)")
+    b = s.index("fn cached(")
+    s = s[:a] + """    std::fs::rename(&temp_path, path).wrap_err("Failed to write to cache dir")?;
+    Ok(temp_file)
+}
+
+""" + s[b:]
     return {"cli/src/config.rs": s}
 
 @special("c20-persist-before-status")
